@@ -85,6 +85,21 @@ func c11Scenarios() []ConcScenario {
 				}
 			}
 		}
+		// the client has stopped reading while its host keeps writing (the relay goroutine is blocked in its write
+		// to the client, send window 32 bytes), then the tunnel ends
+		stalledCauses := []string{"drop", "bad", "garbage", "close"}
+		if kind == "legacy" {
+			stalledCauses = append(stalledCauses, "dropin", "dropout")
+		}
+		for _, cause := range stalledCauses {
+			script := []string{"data:abc", "hostsay:host-keeps-writing-host-keeps-writing-1", "settle", "hostsay:host-keeps-writing-host-keeps-writing-2", "settle", "hostsay:host-keeps-writing-host-keeps-writing-3", "settle", cause, "idle"}
+			name := fmt.Sprintf("%s/stalled+%s", kind, cause)
+			if cause == "dropout" {
+				name = fmt.Sprintf("%s/dropout/stalled", kind) // the known finding (outbound loss unnoticed) applies here too
+			}
+			out = append(out, ConcScenario{Name: name, ClientWindow: 32,
+				Plans: []TunnelPlan{{Kind: kind, ConnID: "A", User: "ua", IP: "10.0.0.1", Host: "ha.example:3389", Script: script}}})
+		}
 		if kind == "ws" {
 			// the host keeps writing while the client ends the tunnel
 			for _, then := range []string{"close", "bad", "drop"} {
